@@ -8,6 +8,7 @@ import (
 	"regexp"
 	"strings"
 	"unicode"
+	"unicode/utf8"
 
 	"verif/vp/gen"
 	"verif/vp/tc"
@@ -318,11 +319,18 @@ func ExportedModel(name string) string {
 			return i
 		}
 	}
-	return strings.ToUpper(name[:1]) + name[1:]
+	return capit(name)
 }
 
-func decap(s string) string { return strings.ToLower(s[:1]) + s[1:] }
-func capit(s string) string { return strings.ToUpper(s[:1]) + s[1:] }
+// first letter (rune, not byte) lower-/upper-cased
+func decap(s string) string {
+	r, n := utf8.DecodeRuneInString(s)
+	return string(unicode.ToLower(r)) + s[n:]
+}
+func capit(s string) string {
+	r, n := utf8.DecodeRuneInString(s)
+	return string(unicode.ToUpper(r)) + s[n:]
+}
 
 // predictName is the independent model of type-derived parameter names. alts lists the acceptable names;
 // asserted=false means the statement/pinned behaviour leaves the name open (only validity is required).
